@@ -170,17 +170,18 @@ type PeerConfig struct {
 }
 
 func (p PeerConfig) validate(opts peerOptions) error {
-	if !opts.localAddress.IsValid() && p.RemoteAddress.IsValid() {
-		return nil
-	}
-	localIsIPv4 := opts.localAddress.Is4()
-	remoteIsIPv4 := p.RemoteAddress.Is4()
-	if localIsIPv4 != remoteIsIPv4 {
-		return errors.New("mixed address family peer address pair")
-	}
-	if !localIsIPv4 {
-		if !opts.localAddress.Is6() || !p.RemoteAddress.Is6() {
-			return errors.New("invalid peer address pair")
+	// the address pair is only checked when a local address is configured
+	// (or the remote address is invalid)
+	if opts.localAddress.IsValid() || !p.RemoteAddress.IsValid() {
+		localIsIPv4 := opts.localAddress.Is4()
+		remoteIsIPv4 := p.RemoteAddress.Is4()
+		if localIsIPv4 != remoteIsIPv4 {
+			return errors.New("mixed address family peer address pair")
+		}
+		if !localIsIPv4 {
+			if !opts.localAddress.Is6() || !p.RemoteAddress.Is6() {
+				return errors.New("invalid peer address pair")
+			}
 		}
 	}
 	// https://tools.ietf.org/html/rfc7607
